@@ -12,6 +12,8 @@ d=json.load(open(sys.argv[1]))
 c=d['coverage']
 for k in ('evaluations_per_hour','samples','worker_processes'): c.pop(k,None)
 d.pop('wall_s',None)
+for k in [k for k in c.get('counters',{}) if k.endswith('_order_dependent')]: c['counters'].pop(k)
+if 'unreached' in c: c['unreached']=[k for k in c['unreached'] if not k.endswith('_order_dependent')]
 print(json.dumps(d,sort_keys=True))
 PY
 }
@@ -19,9 +21,9 @@ export GOFLAGS=-mod=mod GOPROXY=off GOSUMDB=off GOTOOLCHAIN=local
 ( cd sim && go build -o ../bin/vsim ./cmd/vsim && go build -tags verif -o ../bin/codrv ./cmd/codrv ) || exit 2
 ref=""
 i=0
-for cfg in "16 16" "1 1" "4 4" "16 2" "5 16" "3 1"; do
-  [ $i -ge $runs ] && break
-  set -- $cfg
+W=(16 1 4 16 5 3 8 2 12 7); G=(16 1 4 2 16 1 8 4 2 16 4)
+while [ $i -lt $runs ]; do
+  set -- ${W[$((i % 10))]} ${G[$((i % 11))]}
   GOMAXPROCS=$2 ./bin/vsim check $id --tier quick --workers $1 >/dev/null 2>&1
   cur=$(norm evidence/$id.json)
   if [ -z "$ref" ]; then ref="$cur"; else
